@@ -32,7 +32,7 @@ ASSUMPTIONS = ["a message 'that is not a decodable SD notification' = wrong serv
                "for unicast-flag-clear messages only the foreign sender's own session entry may differ between twins"]
 FLOORS = {"quick": {"decoder_outcomes_checked": 50000, "class_parse": 10000, "class_ok": 10000, "class_unicode": 150,
                     "step_counted_calls": 5000, "live_sd_datagrams": 5000, "live_sd_subscription_episodes": 100, "live_service_datagrams": 2000,
-                    "twin_runs": 200, "twin_injected_datagrams": 600, "twin_flagclear_runs": 40, "twin_flagclear_messages_inside_a_known_peers_session_sequence": 60,
+                    "twin_runs": 200, "twin_rejected_messages_bundled_behind_a_genuine_one": 50, "twin_injected_datagrams": 600, "twin_flagclear_runs": 40, "twin_flagclear_messages_inside_a_known_peers_session_sequence": 60,
                     "twin_background_callbacks": 2000, "twin_background_transmissions": 4000}}
 
 
@@ -685,6 +685,18 @@ def twin(ctx, spec, rng, idx):
         base, base_b = plain, with_entries
     else:
         base_b = base
+    if not slotted and idx % 3 == 1:
+        # TR_SOMEIP_00140: several messages in one datagram.  Twin b gets some of the genuine datagrams with a message that is no
+        # SD notification (a consequential SD payload under a header that is wrong in some field) bundled behind the genuine one
+        base_b = list(base)
+        cand = [i for i, ev in enumerate(base_b) if ev[1]]
+        for i in srng.sample(cand, min(len(cand), srng.randrange(1, 3))):
+            kind = srng.choice(("service", "method", "interface_version", "message_type", "return_code", "fields_permuted", "two_fields",
+                                "undecodable_payload"))
+            t, d, src_, mc_ = base_b[i]
+            base_b[i] = (t, d + rejected_datagram(srng, kind), src_, mc_)
+            ctx.count("twin_rejected_messages_bundled_behind_a_genuine_one")
+            ctx.note("twin_reject_kinds", "bundled:" + kind)
     a, esc_a, prob_a = run_scenario(seed, [(t, BEFORE, d, s, m) for t, d, s, m in base], collect)
     # injection instants: random, coinciding with genuine traffic, around the endpoint's own transmissions
     instants = [t for t, *_ in base] + [t for t, _d, _a in a["sent"]]
